@@ -66,6 +66,10 @@ func c06Scenario(p c06Params) *explore.Scenario {
 		Params: map[string]interface{}{"causes": strings.Join(p.Causes, "+"), "tracking": p.Tracking, "ping": p.Ping, "floodctl": p.FloodCtl, "ctx": p.Ctx, "extra": p.Extra, "probe": !p.NoProbe, "direct": p.Direct},
 		Opt:    vx.Options{MaxSteps: 20000, Horizon: 20 * time.Second, ClockAlt: p.Ping},
 	}
+	if p.FloodCtl && p.Extra != "" {
+		sc.Opt.Horizon = 3 * time.Minute
+		sc.Opt.MaxSteps = 60000
+	}
 	needCancel := false
 	for _, c := range p.Causes {
 		if c == "cancel" {
@@ -146,6 +150,12 @@ func c06Scenario(p c06Params) *explore.Scenario {
 					vx.Observe("ev", "cause-begin close")
 					c.Close()
 					vx.Observe("ev", "close-ret")
+					if p.Extra == "close-then-connect" && i == 0 {
+						// the same goroutine connects again as soon as Close has returned: the first connection's
+						// DISCONNECTED handlers are over by then
+						e2 := c.Connect()
+						vx.Observe("ev", fmt.Sprintf("connect2-ret ok=%v", e2 == nil))
+					}
 					done.Add(1)
 				})
 			case cs == "eof":
@@ -180,6 +190,11 @@ func c06Scenario(p c06Params) *explore.Scenario {
 				vx.Observe("ev", fmt.Sprintf("final-eof conn%d", i))
 				x.EOF()
 			}
+		}
+		if p.FloodCtl && p.Extra != "" {
+			// the flood penalty carries over to the second connection: its send goroutine may be holding a line
+			// back (a timer); quiescence alone does not wait for timers
+			vx.Sleep(time.Minute)
 		}
 		vx.Quiesce()
 		vx.Observe("ev", fmt.Sprintf("end connected=%v", c.Connected()))
@@ -224,9 +239,28 @@ func c06Scenario(p c06Params) *explore.Scenario {
 					fs = append(fs, explore.Finding{"connected-false-early", "Connected() was false in a " + strings.Fields(r)[0] + " handler although no disconnect had begun"})
 				}
 			case strings.HasPrefix(r, "DISCONNECTED"):
-				if !second && strings.HasSuffix(r, "connected=true") {
+				if !(second && p.Extra == "reconnect") && strings.HasSuffix(r, "connected=true") {
 					fs = append(fs, explore.Finding{"connected-true-in-disconnected", "Connected() was true inside a DISCONNECTED handler"})
 				}
+			}
+		}
+		if p.Extra == "close-then-connect" && len(p.Causes) == 1 {
+			// Close; Connect from one goroutine: everything of the first connection precedes everything of the second
+			d1, r2, nreg := -1, -1, 0
+			for i, r := range ev {
+				if strings.HasPrefix(r, "DISCONNECTED") && d1 < 0 {
+					d1 = i
+				}
+				if strings.HasPrefix(r, "REGISTER") {
+					if nreg++; nreg == 2 {
+						r2 = i
+					}
+				}
+			}
+			if count(ev, "connect2-ret ok=true") != 1 {
+				fs = append(fs, explore.Finding{"reconnect-after-close-refused", "Connect right after Close returned was refused: " + strings.Join(ev, "; ")})
+			} else if d1 < 0 || r2 < 0 || d1 > r2 {
+				fs = append(fs, explore.Finding{"disconnected-after-close-returned", "the first connection's DISCONNECTED was delivered after Close had returned and the next Connect had dispatched REGISTER: " + strings.Join(ev, "; ")})
 			}
 		}
 		if len(ev) > 0 && ev[len(ev)-1] != "end connected=false" {
@@ -461,6 +495,11 @@ func init() {
 			for _, s := range []string{"close", "eof", "writeerr@2", "cancel"} {
 				add(c06Params{Causes: []string{s}, Extra: "reconnect"}, budgets, 25)
 			}
+			// Close, then Connect again from the same goroutine
+			for _, c := range cfgs {
+				add(c06Params{Causes: []string{"close"}, Extra: "close-then-connect", Tracking: c.t, Ping: c.p, FloodCtl: c.f, Ctx: c.c}, budgets, 25)
+			}
+			add(c06Params{Causes: []string{"close", "eof"}, Extra: "close-then-connect"}, pairBudgets, 25)
 			// without a proxy: internalConnect's own dial
 			for _, s := range singles {
 				add(c06Params{Causes: []string{s}, Direct: true}, budgets, 20)
